@@ -75,7 +75,7 @@ def check_model(ctx, C, T, pi, tag, rng):
         ok = False
     X = pi[:, None] * T
     db = np.abs(X - X.T).max()
-    if db > 1e-8:
+    if db > 1e-7:
         ctx.violation('mle.%s.not-reversible' % tag,
                       'max |pi_i T_ij - pi_j T_ji| = %.3g' % db)
         ok = False
@@ -131,6 +131,17 @@ def run_case(ctx, kind, rng, idx):
     if rng.random() < 0.2:
         # the estimate is invariant under a common factor on the counts
         C = C * float(10.0 ** int(rng.integers(-4, 5)))
+    # the same numbers in another element type (the estimator must compute in
+    # double whatever the counts are stored as)
+    if rng.random() < 0.35:
+        mx = float(np.max(C))
+        if np.issubdtype(C.dtype, np.integer):
+            cand = [np.int32, np.uint32, np.uint64] + (
+                [np.uint16, np.int16] if mx < 3e4 else []) + (
+                [np.uint8] if mx < 250 else [])
+        else:
+            cand = [np.float32]
+        C = C.astype(cand[int(rng.integers(0, len(cand)))])
     n = len(C)
     desc = {'n': n, 'dtype': str(C.dtype), 'asym': asym,
             'C': C if n <= 7 else 'elided'}
